@@ -153,7 +153,8 @@ Proof.
     { subst st1. eapply Forall_impl; [|exact A2]. intros s [H|[[k H]|H]].
       - left; exact H.
       - right; left. exists k. apply gv_extend. exact H.
-      - right; right. exact H. }
+      - right; right. destruct H as [t0 [c0 [p0 [u0 [E0 P0]]]]]. exists t0, c0, p0, u0.
+        split; [exact E0|]. apply chain_ok_extend. exact P0. }
     destruct (IH st1 v1 st' r (length st) W1 G1 Adm1 NS2 D) as [W' [k [Gk [Ok [Len Fresh]]]]].
     split; [exact W'|]. exists k. split; [exact Gk|]. split; [congruence|].
     subst st1. rewrite app_length in Len, Fresh. simpl in Len, Fresh. split; [lia|]. right.
@@ -163,16 +164,38 @@ Proof.
 Qed.
 
 (* ---------------------------------------------------------------- errors.Is never panics *)
+Lemma gerr_val_not_deep v : is_gerr_val v = true -> deep v = false.
+Proof. destruct v; simpl; intros H; try discriminate; reflexivity. Qed.
+
+(* [is_foreign va = true -> deep vb = false]: when the source is a foreign error, the target is
+   not a deeply non-comparable value (two foreign errors of one such dynamic type make the
+   stdlib's own `err == target` panic before any gerror code runs: not one of "these calls") *)
 Lemma errors_is_total st va vb :
-  wf st -> admissible st va -> admissible st vb -> exists b, errors_is st va vb = Ok b.
+  wf st -> admissible st va -> admissible st vb ->
+  (is_gerr_val va = false -> va <> VNil -> deep vb = false) ->
+  exists b, errors_is st va vb = Ok b.
 Proof.
-  intros W [->|[[i Ga]|[t [c [p [u [-> P]]]]]]] Hb.
+  intros W [->|[[i Ga]|[t [c [p [u [-> P]]]]]]] Hb Dp.
   - unfold errors_is, errors_is_gen. simpl. destruct vb; simpl; eauto.
   - destruct Hb as [->|[[j Gb]|[t [c [p [u [-> P]]]]]]].
     + unfold errors_is, errors_is_gen. rewrite orb_true_r. destruct va; simpl in *; eauto; discriminate.
     + exists (Nat.eqb (origin st i) (origin st j)). exact (errors_is_gg true st W va vb i j Ga Gb).
     + destruct (gv_cell _ _ _ Ga) as [ci [Ei _]]. eexists. exact (errors_is_gf st W va i ci t c p u Ga Ei).
-  - destruct (errors_is_foreign_src true st t c p u vb P) as [b [E _]]. exists b. exact E.
+  - assert (Dv : deep vb = false) by (apply Dp; [reflexivity|discriminate]).
+    apply (errors_is_foreign_any st t c p u vb W P); [|exact Dv].
+    destruct Hb as [->|[H|[t' [c' [p' [u' [-> _]]]]]]]; [left; reflexivity|right; left; exact H|].
+    right; right. eauto.
+Qed.
+
+(* "these calls": at least one side is a gerror value — no further hypothesis *)
+Lemma errors_is_total_gerr st va vb :
+  wf st -> admissible st va -> admissible st vb ->
+  is_gerr_val va = true \/ is_gerr_val vb = true ->
+  exists b, errors_is st va vb = Ok b.
+Proof.
+  intros W Aa Ab [G|G]; apply errors_is_total; auto.
+  - intros H. congruence.
+  - intros _ _. apply gerr_val_not_deep. exact G.
 Qed.
 
 (* ---------------------------------------------------------------- Convert / ConvertS *)
@@ -182,7 +205,7 @@ Definition conv_after (s : val) (l : list val) (e : val) : bool :=
 
 Lemma convert_is_fwd xw st v m a st' r i ci t c p u :
   guarded_wiring xw -> wf st -> gv st v = Some i -> nth_error st i = Some ci ->
-  w_serr (wt_of xw v m) = EErr -> a_err a = VF t c p u -> pure u = true ->
+  w_serr (wt_of xw v m) = EErr -> a_err a = VF t c p u -> chain_ok st u = true ->
   call xw st v m a = Some (st', r) ->
   errors_is st' r (VF t c p u)
   = Ok (conv_after (g_serr (c_g ci)) (g_later (c_g ci)) (VF t c p u)).
@@ -234,11 +257,11 @@ Lemma convert_is_bwd xw st v m a st' r t c p u :
 Proof.
   intros GW W [i G] Ha P C.
   assert (Adm : admissible st (a_err a)).
-  { right; right. rewrite Ha. exists t, c, p, u. auto. }
+  { right; right. rewrite Ha. exists t, c, p, u. split; [reflexivity|]. apply pure_chain_ok. exact P. }
   destruct (call_wf xw st v m a st' r GW W Adm C) as [_ [[k Gk] _]].
-  destruct (errors_is_foreign_src true st' t c p u r P) as [b [E F]].
   destruct (gv_cell _ _ _ Gk) as [_ [_ Ag]].
   assert (Gr : is_gerr_val r = true) by (destruct r; simpl in Ag; try discriminate; reflexivity).
+  destruct (errors_is_foreign_src true st' t c p u r P (gerr_val_not_deep r Gr)) as [b [E F]].
   unfold errors_is. rewrite E, (F Gr). reflexivity.
 Qed.
 
@@ -333,7 +356,7 @@ Proof. intros W. exact (errors_is_gg true st W va vb i j). Qed.
 (* Convert/ConvertS of a comparable foreign error e, on ANY receiver: errors.Is(result, e) *)
 Lemma convert_fwd_full xw st v m a st' r i t p u :
   guarded_wiring xw -> wf st -> gv st v = Some i ->
-  w_serr (wt_of xw v m) = EErr -> a_err a = VF t true p u -> pure u = true ->
+  w_serr (wt_of xw v m) = EErr -> a_err a = VF t true p u -> chain_ok st u = true ->
   call xw st v m a = Some (st', r) ->
   errors_is st' r (VF t true p u) = Ok true.
 Proof.
@@ -344,7 +367,7 @@ Qed.
 
 Lemma convert_fwd_noncomparable xw st v m a st' r i ci t p u :
   guarded_wiring xw -> wf st -> gv st v = Some i -> nth_error st i = Some ci ->
-  w_serr (wt_of xw v m) = EErr -> a_err a = VF t false p u -> pure u = true ->
+  w_serr (wt_of xw v m) = EErr -> a_err a = VF t false p u -> chain_ok st u = true ->
   call xw st v m a = Some (st', r) ->
   errors_is st' r (VF t false p u) = Ok false.
 Proof.
@@ -369,6 +392,22 @@ Proof.
   apply pool_wf. constructor; [|constructor].
   split; [reflexivity|split; [reflexivity|split; [reflexivity|intros x Hx; discriminate]]].
 Qed.
+
+(* the code before the value-level repair guarded the comparison with the TYPE's comparability:
+   a converted error of a comparable struct type holding a slice in an interface field passes
+   that guard and the == behind it panics; the repaired code answers false *)
+Definition deep_err : val := VF 200 false 5 VNil.
+Definition deep_args : margs := mkA [] [] [] deep_err [111%N] 0 [109%N; 58%N; 102%N].
+
+Lemma type_guard_panics :
+  match call base_wiring panic_store (VG 0) MConvert deep_args with
+  | Some (st', r) =>
+      type_comparable deep_err = true /\ comparable deep_err = false
+      /\ gerr_is_ty 4 st' 1 deep_err = Panic /\ r = VG 1
+      /\ errors_is st' r deep_err = Ok false
+  | None => False
+  end.
+Proof. vm_compute. repeat split; reflexivity. Qed.
 
 Lemma no_panic_orig_refuted :
   exists st va vb, wf st /\ admissible st va /\ admissible st vb /\ errors_is_orig st va vb = Panic.
